@@ -74,15 +74,20 @@ def choose_overload(name, candidates, engine, receiver, context, args, kwargs):
     no_kwargs = None
     if receiver is not utils.NO_VALUE:
         args = (receiver,) + args
+    # all candidates must agree on whether 'name => value' arguments are
+    # keyword arguments before the arguments can be translated; checking
+    # this first keeps the outcome independent of the enumeration order
     for level in candidates:
-        new_level = []
         for c in level:
             if no_kwargs is None:
                 no_kwargs = c.no_kwargs
-                args, kwargs = translate_args(no_kwargs, args, kwargs)
             elif no_kwargs != c.no_kwargs:
                 raise_ambiguous()
+    args, kwargs = translate_args(no_kwargs, args, kwargs)
 
+    for level in candidates:
+        new_level = []
+        for c in level:
             mapping = c.map_args(args, kwargs, context, engine)
             if mapping is None:
                 continue
@@ -117,22 +122,25 @@ def choose_overload(name, candidates, engine, receiver, context, args, kwargs):
         kwargs[key] = arg_evaluator(key, value)
 
     delegate = None
-    winner_mapping = None
     for level in candidates2:
+        matches = []
         for c, mapping in level:
             try:
                 d = c.get_delegate(receiver, engine, context, args, kwargs)
             except exceptions.ArgumentException:
                 pass
             else:
-                if delegate is not None:
-                    if _is_specialization_of(winner_mapping, mapping):
-                        continue
-                    elif not _is_specialization_of(mapping, winner_mapping):
-                        raise_ambiguous()
-                delegate = d
-                winner_mapping = mapping
-        if delegate is not None:
+                matches.append((d, mapping))
+        if matches:
+            # the winner is the match that is more specific than every
+            # other match of the layer, whatever order they came in
+            for d, mapping in matches:
+                if all(m is mapping or _is_specialization_of(mapping, m)
+                       for _, m in matches):
+                    delegate = d
+                    break
+            else:
+                raise_ambiguous()
             break
 
     if delegate is None:
